@@ -395,7 +395,7 @@ theorem basic_trPublish {σ σ' : State} (hb : Basic σ) (h : doTrPublish σ = s
       have := hb.floorPub
       show σ.floor ≤ t.base + t.priv.length; omega }
 
-theorem basic_trDiscard {σ σ' : State} (hb : Basic σ) (h : doTrDiscard σ = some σ') : Basic σ' := by
+theorem basic_trDiscard {σ σ' : State} (hb : Basic σ) (h : doTrDiscard Cfg.real σ = some σ') : Basic σ' := by
   obtain ⟨t, g1, g2, rfl⟩ := doTrDiscard_some h
   obtain ⟨x1, x2, x3, x4⟩ := hb.trExcl t g1
   have hu : univ σ = σ.hist ++ t.priv := by simp [univ, g1, privOf]
@@ -403,6 +403,8 @@ theorem basic_trDiscard {σ σ' : State} (hb : Basic σ) (h : doTrDiscard σ = s
   have hts := hb.tabSub
   rw [hu] at huniq
   simp only [g1, privIn, g2] at hts
+  have hP : σ.pub ≤ max σ.pub (t.base + t.priv.length) := Nat.le_max_left _ _
+  have hhist := hb.hist_le x1
   exact { hb with
     uniq := by
       show Uniq (σ.hist ++ [])
@@ -412,15 +414,53 @@ theorem basic_trDiscard {σ σ' : State} (hb : Basic σ) (h : doTrDiscard σ = s
       intro e he
       have he' : e ∈ σ.hist ++ [] := he
       rw [List.append_nil] at he'
-      have := hb.hist_le x1 e he'
-      show e.seq ≤ σ.pub + σ.pending.length + ([] : List Entry).length
+      have := hhist e he'
+      show e.seq ≤ max σ.pub (t.base + t.priv.length) + σ.pending.length + ([] : List Entry).length
       omega
     tabSub := fun e he => by
       rcases hts e he with h | h
       · exact Or.inl h
       · simp at h
     trExcl := fun t' ht' => by cases ht'
-    privSeq := fun e he => by cases he }
+    pendSeq := fun e he => by
+      have : e ∈ σ.pending := he
+      rw [x1] at this; cases this
+    privSeq := fun e he => by cases he
+    histPub := fun e he hlt => by
+      have := hhist e he
+      have hlt' : max σ.pub (t.base + t.priv.length) < e.seq := hlt
+      omega
+    snapsLe := fun p hp => by
+      have := hb.snapsLe p hp
+      show p.2 ≤ max σ.pub (t.base + t.priv.length); omega
+    floorPub := by
+      have := hb.floorPub
+      show σ.floor ≤ max σ.pub (t.base + t.priv.length); omega }
+
+theorem basic_seqSkip {σ σ' : State} {n : Nat} (hb : Basic σ) (h : doSeqSkip σ n = some σ') : Basic σ' := by
+  obtain ⟨g1, g2, rfl⟩ := doSeqSkip_some h
+  have hbound := hb.bound
+  exact { hb with
+    bound := fun e he => by
+      have := hbound e he
+      show e.seq ≤ σ.pub + n + σ.pending.length + (privOf σ.tr).length
+      omega
+    trExcl := fun t ht => absurd ht (by show σ.tr ≠ some t; rw [g1]; simp)
+    pendSeq := fun e he => by
+      have : e ∈ σ.pending := he
+      rw [g2] at this; cases this
+    histPub := fun e he hlt => by
+      have hlt' : σ.pub + n < e.seq := hlt
+      exact hb.histPub e he (by omega)
+    privSeq := fun e he => by
+      have : e ∈ privOf σ.tr := he
+      rw [g1] at this; cases this
+    snapsLe := fun p hp' => by
+      have := hb.snapsLe p hp'
+      show p.2 ≤ σ.pub + n; omega
+    floorPub := by
+      have := hb.floorPub
+      show σ.floor ≤ σ.pub + n; omega }
 
 /-- I1/I2 are inductive -/
 theorem basic_step {c : UCmp} {σ σ' : State} {a : Action} (hb : Basic σ) (h : Step Cfg.real c σ a σ') :
@@ -429,6 +469,7 @@ theorem basic_step {c : UCmp} {σ σ' : State} {a : Action} (hb : Basic σ) (h :
   cases a with
   | writeInsert es => exact basic_writeInsert hb h
   | publish => exact basic_publish hb h
+  | seqSkip n => exact basic_seqSkip hb h
   | rotate => exact basic_rotate hb h
   | flushInstall => exact basic_flushInstall hb h
   | flushDrop => exact basic_flushDrop hb h
